@@ -240,6 +240,20 @@ PROPS["C13"] = dict(
 )
 
 
+# --------------------------------------------------------------------------- C25 (kernel only)
+_C25 = ["c25_push1_last_of_1", "c25_push32_last_of_1", "c25_push32_last_of_3", "c25_push2_first_of_3", "c25_push17_mid_of_3"]
+PROPS["C25"] = dict(
+    functions=["revm_interpreter::instructions::stack::push::<N> (unchecked `from_raw_parts(ip, N)` read) on a real Interpreter over to_analysed code "
+               "(crates/interpreter/src/instructions/stack.rs, interpreter/analysis.rs padding invariant)"],
+    bounds="code lengths 1 and 3 with all bytes symbolic, PUSH1/2/17/32 at the first, middle and LAST code position; CBMC pointer checks on: any read or pointer "
+           "outside the (code + 33 zero bytes) buffer is a failure; the pushed word must be the immediate with bytes past the end of code read as zero",
+    outside="everything else the property says: whole-program termination, every other unchecked read (RJUMP*/CALLF immediates, DATALOADN), EOF containers, "
+            "assume!/debug_unreachable! sites. Stack copies, memory slices and jump targets are decided under C12, C11 and C04 with pointer checks on.",
+    assumptions=["kissat back end", "the interpreter loop advances the instruction pointer past the opcode before calling the instruction (read in Interpreter::step)"],
+    harnesses=[H("c25::" + n, flags=_NOREACH, timeout=1500, mem_gb=8, bounds=n) for n in _C25]
+    + [H("c25::c25_twin_must_fail", expect_fail=True, flags=_NOREACH, bounds="vacuity twin", mem_gb=8, timeout=900)],
+)
+
 # --------------------------------------------------------------------------- C29
 PROPS["C29"] = dict(
     functions=["the seven closures installed by revm::inspector_handle_register on handler.execution.{create, call, eofcreate, insert_eofcreate_outcome, "
